@@ -146,6 +146,13 @@ P['C06']={
  "required":[RG+"generate:post:crypto", RG+"GenerateSessionID:refine:SessionGenerator.GenerateSessionID.crypto", "server.ExtAuthZFilter.Check:pre@call:NewOIDCHandler.secure_generator", "oidc.NewRandomGenerator:post:secure"],
  "assumptions":["A-CRYPTO: the bytes of distinct crypto/rand.Read calls are unpredictable and independent of each other and of everything else","A-S256 / oauth2.GenerateVerifier: the PKCE verifier comes from crypto/rand inside golang.org/x/oauth2 (trusted)"],
  "note":"decided as a functional provenance contract: every session id / state / nonce is shown to be a fixed function (alphabet character selected by byte i modulo 62) of the bytes of ONE crypto/rand.Read made in that call, and of nothing else (not the time, not request data, not other identifiers); the only generator server.Check hands to the handler is the randomGenerator. The statistical quality of the draw (modulo bias 256 mod 62) is not decided"}
+K="k8s.SecretController."
+P['C19']={
+ "functions":[K+"Reconcile",K+"loadSecrets","k8s.secretNamespacedName"],
+ "panics":True,
+ "quick_timeout_s":30,
+ "required":[K+"Reconcile:post:applied",K+"Reconcile:post:others_untouched",K+"Reconcile:post:ignored",K+"loadSecrets:post:same_namespace",K+"loadSecrets:post:indexed",K+"Reconcile:post:err_only_from_get"],
+ "note":"the token-endpoint requests read the secret at request time (C04/C11 request postconditions speak about cfg.GetClientSecret() at the call); delivery of Kubernetes events and the data race between Reconcile's write and readers (C16) are not decided; PreRun / ServeContext (controller-runtime wiring) are not under contract"}
 P['C03']={
  "posts":{
   H+"retrieveTokens":["login_expiry","redirect_back","bind","consumed","count","view"],
